@@ -12,6 +12,11 @@
 //   * on deallocate(p,n): p == nullptr -> counted as "nullfree" (harmless, reported separately);
 //     p not a live block -> error "badfree" (double free or garbage pointer) and NOTHING is freed;
 //     n*sizeof(T) != recorded bytes -> error "sizemismatch" (block is released);
+//   * while a remove_key call is running (chk::track_arr) the global operator new[] / delete[] are part of the same
+//     bookkeeping: remove_key of the unchanged tree parks the surviving entries in `new char_ptr_ptr[naux-1]`, which
+//     does not go through Alloc. Such an array counts as an allocation (so the single-fault sweep also fails IT),
+//     is listed among the live blocks until delete[] (a forgotten delete[] shows up as a leak), and delete[] of a
+//     pointer that is not a live array is "badfree". Outside remove_key new[]/delete[] are plain malloc/free.
 // After every operation the harness prints, for every object slot, the ownership picture field by field:
 //   N = null pointer, L<bytes> = pointer to a live block of that size, X = non-null and not live (garbage/dangling)
 // plus ndim/naux and (when every array is live) orders/nknots/naxes and a content hash, then the sorted
@@ -23,11 +28,38 @@ namespace chk {
   static std::map<void*, size_t> live;
   static long alloc_count = 0, fault_at = 0, nullfree = 0, faults_thrown = 0;
   static std::vector<std::string> errors;
+  static std::map<void*, size_t> live_arr;     // arrays obtained with operator new[] inside remove_key
+  static bool track_arr = false, in_hook = false;
   static void reset(long fa){
     for(auto& kv : live) ::operator delete(kv.first);   // blocks the previous case leaked were reported there; keep LeakSanitizer for the rest
-    live.clear(); alloc_count = 0; fault_at = fa; nullfree = 0; faults_thrown = 0; errors.clear(); }
+    for(auto& kv : live_arr) free(kv.first);
+    live.clear(); live_arr.clear(); alloc_count = 0; fault_at = fa; nullfree = 0; faults_thrown = 0; errors.clear(); track_arr = false; }
   static long live_size(const void* p){ auto it = live.find(const_cast<void*>(p)); return it == live.end() ? -1 : (long)it->second; }
+  struct Guard { bool& f; Guard(bool& x) : f(x) { f = true; } ~Guard(){ f = false; } };
+  static void* arr_new(size_t bytes){
+    if(!track_arr || in_hook){ void* p = malloc(bytes ? bytes : 1); if(!p) throw std::bad_alloc(); return p; }
+    alloc_count++;
+    if(fault_at && alloc_count == fault_at){ faults_thrown++; throw std::bad_alloc(); }
+    void* p = malloc(bytes ? bytes : 1); if(!p) throw std::bad_alloc();
+    { Guard g(in_hook); live_arr[p] = bytes; }
+    return p;
+  }
+  static void arr_delete(void* p){
+    if(!p) return;
+    if(in_hook){ free(p); return; }
+    Guard g(in_hook);
+    auto it = live_arr.find(p);
+    if(it != live_arr.end()){ live_arr.erase(it); free(p); return; }
+    if(track_arr){ errors.push_back("badfree:array"); return; }       // delete[] of something that is not a live array: nothing is freed
+    free(p);
+  }
 }
+// replaced for the whole program (malloc/free underneath, so ASan still sees every block)
+void* operator new[](size_t n){ return chk::arr_new(n); }
+void* operator new[](size_t n, const std::nothrow_t&) noexcept { try{ return chk::arr_new(n); }catch(...){ return nullptr; } }
+void operator delete[](void* p) noexcept { chk::arr_delete(p); }
+void operator delete[](void* p, size_t) noexcept { chk::arr_delete(p); }
+void operator delete[](void* p, const std::nothrow_t&) noexcept { chk::arr_delete(p); }
 
 template<typename T>
 struct CheckAlloc {
@@ -129,6 +161,7 @@ static void dump(int s, const CT* t){
 static void heapline(){
   std::vector<size_t> v;
   for(auto& kv : chk::live) v.push_back(kv.second);
+  for(auto& kv : chk::live_arr) v.push_back(kv.second);
   std::sort(v.begin(), v.end());
   std::ostringstream o; o << "h";
   for(size_t x : v) o << " " << x;
@@ -215,6 +248,7 @@ static int run_cases(const char* path, long skip){
         objs[s] = 0; objs[s] = new CT(w[3]); }
       else if(kind == "wkey"){ bool r = objs[s]->write_key(w[3].c_str(), w[4] == "-" ? std::string("") : w[4]); msg = r ? "true" : "false"; }
       else if(kind == "wkeyi"){ bool r = objs[s]->write_key(w[3].c_str(), atoi(w[4].c_str())); msg = r ? "true" : "false"; }
+      else if(kind == "dkey"){ chk::Guard g(chk::track_arr); bool r = objs[s]->remove_key(w[3].c_str()); msg = r ? "true" : "false"; }
       else if(kind == "conv"){
         uint32_t dim = atoi(w[3].c_str()); size_t nk = atoi(w[4].c_str());
         std::vector<double> k(nk ? nk : 1);
